@@ -127,10 +127,16 @@ func (b *atxHeadingParser) Open(parent ast.Node, reader text.Reader, pc Context)
 			}
 		}
 		if closureClose > 0 {
+			savedLine, savedPosition := reader.Position()
 			reader.Advance(closureClose)
 			attrs, ok := ParseAttributes(reader)
+			currentLine, _ := reader.Position()
 			rest, _ := reader.PeekLine()
-			parsed = ok && util.IsBlank(rest)
+			// attributes must end on the heading's own line
+			parsed = ok && currentLine == savedLine && util.IsBlank(rest)
+			if !parsed {
+				reader.SetPosition(savedLine, savedPosition)
+			}
 			if parsed {
 				for _, attr := range attrs {
 					node.SetAttribute(attr.Name, attr.Value)
